@@ -1,8 +1,8 @@
 CONSTANTS
   Retain = 100
-  HeadBeforeCanon = TRUE
-  KeepOrphanVersions = TRUE
-  PruneHidesCommitError = TRUE
+  HeadBeforeCanon = FALSE
+  KeepOrphanVersions = FALSE
+  PruneHidesCommitError = FALSE
 INIT TraceInit
 NEXT TraceNext
 POSTCONDITION TraceAccepted
